@@ -56,6 +56,8 @@ class VfModelMegacomplex(Megacomplex):
             m = np.empty((model_axis.size, len(rates)))
             for j, r in enumerate(rates):
                 m[:, j] = col_model(r, model_axis, 0.0, False)
+        if _POISON[0]:
+            m[...] = np.nan
         return list(self.clp_labels), m
 
     def finalize_data(self, dataset_model, dataset, is_full_model=False, as_global=False):
@@ -80,6 +82,7 @@ class VfGlobalMegacomplex(Megacomplex):
         pass
 
 
+_POISON = [False]  # fault injection: the harness megacomplex returns a non-finite matrix
 _FAULT_HOOK = [None]  # set by fault-injection checks (C10/C15); called at every model-matrix evaluation
 VfModel = Model.create_class_from_megacomplexes([VfModelMegacomplex, VfGlobalMegacomplex])
 
